@@ -1,5 +1,6 @@
 import QclibModel.Model.DriverLib
 import QclibModel.Model.Schmidt
+import QclibModel.Gen.SchmidtRank
 open Lean Qclib Qclib.Drv Qclib.Schmidt
 
 def natsStr (xs : List Nat) : String :=
@@ -30,6 +31,14 @@ def runOp (j : Json) : List String :=
     match rankRule (jInt j "lr") (jNat j "eff") with
     | none => ["reject"]
     | some r => ["rank " ++ toString r, "ebits " ++ toString (toQubits r)]
+  | "gen_rank" =>
+    -- double tie of the translation (Gen/SchmidtRank.lean): singular values as exact rationals num/den
+    let nums := (jInts j "num").toList
+    let dens := (jInts j "den").toList
+    let s : List Rat := (nums.zip dens).map (fun nd => mkRat nd.1 nd.2.toNat)
+    let eff := Qclib.Gen.SchmidtRank.effective_rank s
+    ["eff " ++ toString eff,
+     if eff == 0 then "reject" else "rank " ++ toString (Qclib.Gen.SchmidtRank.low_rank_rank (jInt j "lr") s)]
   | other => ["UNKNOWN-OP " ++ other]
 
 def main : IO Unit := driverMain runOp
